@@ -72,7 +72,7 @@ pub static PLANS: &[PropPlan] = &[PropPlan {
     prop: "C16",
     level: "exploration",
     sims: &[SimPlan { sim: "arena", quick_runs: 100_000, thorough_runs: 2_000_000 }],
-    rule: "each run draws 1-3 simulated threads (real OS threads, real thread-local node buffer each) and, per thread, 2-40 operations over a bag of live (Value, model) pairs: parse by 10 routes (from_str, from_slice, Deserializer over Bytes/FastStr, value inside a struct, use_rawnumber alone / inside a struct / inside a Vec, element of Vec<Value>, second value of a deserializer), malformed documents through every deserializer now and then, repeated document texts, hand-off (parse, give away untouched, let others run, parse the same text again), three values through one deserializer, streams (open / next / drop before or after their values), clone root / subtree, take a child out, insert a value into another document, mutate, read-and-compare, send to another thread, receive, drop; the scheduler may switch before every arena reference-count operation and between operations; final drops happen in a drawn order. Non-trivial = a context switch, cross-thread send, promotion or mutation happened; distinct = distinct hash of the rendered trace",
+    rule: "each run draws 1-3 simulated threads (real OS threads, real thread-local node buffer each) and, per thread, 2-40 operations over a bag of live (Value, model) pairs: parse by 10 routes (from_str, from_slice, Deserializer over Bytes/FastStr, value inside a struct, use_rawnumber alone / inside a struct / inside a Vec, element of Vec<Value>, second value of a deserializer), malformed documents through every deserializer now and then, repeated document texts, hand-off (parse, give away untouched, let others run, parse the same text again), three values through one deserializer, streams (open / next / drop before or after their values), clone root / subtree, take a child out, insert a value into another document, mutate, read-and-compare, send to another thread, receive, drop; the scheduler may switch before every arena reference-count operation and between operations; final drops happen in a drawn order and every survivor is re-read after each of them (thorough tier: for single-threaded runs ending with 2..=5 sharers every drop order is enumerated). Non-trivial = a context switch, cross-thread send, promotion or mutation happened; distinct = distinct hash of the rendered trace",
     assumptions: &[
         "std::sync::Arc and bumpalo are trusted; the baton of the native engine serialises execution, so data races are out of its reach: they are the business of the Miri engine of this check (free-running threads, Miri's race detector)",
         "native engine: memory errors are observed through the simulated heap: ledger (double/invalid/wrong-layout free), 0xDE poison + quarantine (use after free reads poison, write after free detected), tail canaries on every block, leak check, the live-arena counter fed by hook events; one run in three uses the heap's reuse mode (freed blocks of the same size are handed out again, randomised) so that address-reuse (ABA) defects can show",
@@ -584,7 +584,7 @@ pub fn main(args: &[String]) -> i32 {
             "per_sim_config": per_group,
             "real_vs_stub": plan.real_vs_stub,
             "worker_cpu_s": worker_wall,
-            "fault_enumeration": {"base_runs_enumerated": enumerated_bases, "fault_points_executed": enumerated_variants, "note": "thorough tier only: every byte offset / call index for every fault kind, per base run with a fallible sink"},
+            "fault_enumeration": {"base_runs_enumerated": enumerated_bases, "fault_points_executed": enumerated_variants, "note": if prop == "C16" { "thorough tier only: for every single-threaded base run that ends with 2..=5 live values / streams, EVERY order of dropping them is executed (5 sharers: one base run in four), with all survivors re-read after each drop" } else { "thorough tier only: every byte offset / call index for every fault kind, per base run with a fallible sink" }},
             "violations_seen_before_dedup": violations_total,
             "engine": "dsim (choice-stream driven simulator; baton scheduler over real OS threads; simulated heap)",
             "second_engine_miri": miri_json,
